@@ -4,6 +4,7 @@
   ./selftest.py                      run every mutants/<ID>_*.patch and seeded/*/patch.diff
   ./selftest.py C03                  only those of one property
   ./selftest.py path/to.patch C03    one patch against one property's quick check
+  ./selftest.py [C03] -j 4           run four patches at a time
 
 For each patch: copy /repo to a scratch dir outside /repo and /verif, apply the patch, run the
 property's quick check with VERIF_REPO=<scratch>, expect exit 1 (VIOLATION), remove the scratch copy.
@@ -61,15 +62,21 @@ def main():
         print(out[-3000:])
         print(status)
         return 0 if status == "KILLED" else 1
+    jobs = 1
+    if "-j" in args:
+        i = args.index("-j")
+        jobs = int(args[i + 1])
+        del args[i:i + 2]
     items = collect(args[0] if args else None)
     bad = 0
-    for patch, prop in items:
-        status, out = run_patch(patch, prop)
-        first = next((l for l in out.splitlines() if l.startswith("  kind=")), "")
-        print(f"{status:14s} {prop} {os.path.relpath(patch, VERIF)} {first[:150]}")
-        if status != "KILLED":
-            bad += 1
-            print(out[-1500:])
+    from concurrent.futures import ThreadPoolExecutor
+    with ThreadPoolExecutor(max_workers=jobs) as ex:
+        for (patch, prop), (status, out) in zip(items, ex.map(lambda it: run_patch(*it), items)):
+            first = next((l for l in out.splitlines() if l.startswith("  kind=")), "")
+            print(f"{status:14s} {prop} {os.path.relpath(patch, VERIF)} {first[:150]}", flush=True)
+            if status != "KILLED":
+                bad += 1
+                print(out[-1500:], flush=True)
     print(f"{len(items) - bad}/{len(items)} killed")
     return 1 if bad else 0
 
